@@ -57,11 +57,12 @@ PROPS = {
     },
     "C06": {
         "level": "exploration",
-        "steps": [("hv", "C06", {}), ("py", "lsx", "run_c06")],
+        "steps": [("hv", "C06", {}), ("py", "lsx", "run_c06"), ("py", "lsx", "run_c06_settings")],
         "rule": "exhaustive pass: every spelling of an independent expansion of dictionary.dict + affixes.json (read from the current tree, reconciled with the implementation's "
                 "word set) x 4 dialects, alone, plus Capitalised/UPPER forms of lower-case entries and sentence frames (sampled); dialect-tagged words under the other dialects; "
                 "non-words (random letter strings, edit-distance-1 mutants) must be flagged at their exact span; every suggestion must be a listed word of the active dialect; harper-ls sessions with user / file dictionary files on disk (LF, CRLF, no final newline, blank lines; novel words and "
                 "lower-case forms of capitalised-only curated entries): listed words never published as spelling errors, unlisted strings published exactly at their characters; "
+                "the spelling diagnostics of open documents under a dialect change (announced first, or pulled by an edit before the announcement) equal the library's for the new dialect; "
                 "distinct = hash(document, dialect)",
         "assumptions": ["dialect tags are read from the implementation's metadata (the statement does not say how they arise)", "words that lex into several tokens are skipped (counted)"],
         "exhaustive_part": "every spelling the reference expansion derives (~132 k) x 4 dialects, as a one-word document",
